@@ -54,10 +54,12 @@ CLAIMED = {
  'C23': dict(
     text='Partial claim (temperature scales), bounded symbolic model checking through the whole real pipeline: the real module physics::temperature_conversion is imported into a real session; for a symbolic double x with |x| <= 10^6 the programs celsius(from_celsius(x)) and from_celsius(celsius(x kelvin)) (thorough tier: the Fahrenheit pair as well) are interpreted, and the solver proves the round trip restores x within 1e-9 (1e-8) on every feasible path. This is a floating-point tolerance claim that is decidable because the Celsius pair only adds and subtracts a constant.',
     design_ref='DESIGN.md §0a / §4 C23', technique='symbolic execution of LLVM IR (whole interpreter pipeline) + SMT (z3 QF_FP), native replay'),
+ 'C02': dict(
+    text='Partial claim (the constraint solver), bounded symbolic model checking of the compiled code: ConstraintSet::solve (Constraint::try_satisfy, DType::from_factors / divide / multiply / power with their canonicalisation, Substitution::apply) runs on dimension equations over two type variables and two base dimensions whose exponents are symbolic integers in [-3, 3]; on every feasible path the solver must accept exactly the systems that are consistent over the rationals (decided by an integer determinant / minor oracle), and the returned substitution must make both sides of every equation the same dimension. Accept/reject of whole programs and constraint generation are outside the claim.',
+    design_ref='DESIGN.md §0a / §4 C02', technique='symbolic execution of LLVM IR + SMT (z3 QF_BV), replay-mode path exploration, linear-algebra oracle'),
 }
 
 NOT_APPLICABLE = {
- 'C02': 'accept/reject of whole programs has no symbolic value to range over (symbolic program text cannot pass the keyword hash map / float parsing); the planned kernel (ConstraintSet::solve on symbolic rational exponents) runs into the gcd path explosion of Ratio<i128> arithmetic measured on the C08 exponent kernels, so it was not built',
  'C06': 'ranges over histories of source texts; no symbolic value reaches the rollback mechanism and symbolic source text is out of reach (hash-map keyword lookup, float parsing)',
  'C07': 'ranges over sequences of texts and split points; nothing value-dependent for a solver to decide',
  'C13': 'finite alias x prefix table: exhaustive enumeration is the tool; a solver would need symbolic identifiers through IndexMap hashing or a hand model of PrefixParser::parse instead of the code',
